@@ -24,8 +24,8 @@ PANIC_MARKS = (
      "udpJob.transition's ownership assertion fired: a job was released twice or had two owners"),
     ("server: tcp job released twice", "", "tcpEngine.put's double-release guard fired"),
     ("nil pointer dereference", "server.(*udpTXBurst).add",
-     "burst.add on the nil burst of an overflow serve: a job carried a staged length it did not stage "
-     "(a reply left over from the slab's previous lease)"),
+     "burst.add on the nil burst of an overflow serve: the job reached a burst-less serve already carrying a "
+     "staged length (a reply left over from the slab's previous lease, or from an inline pass that also handed off)"),
 )
 
 
